@@ -1602,7 +1602,10 @@ func (c *Conn) readHeader(fr *FrameHeader, r *Ctx) error {
 		r.hdrStatus = 0
 	}
 
-	blockStart := fr.Type() == FrameHeaders
+	// A size update may come before the first field of the block, whichever
+	// frame that field is in: an update cut by the frame boundary, or followed
+	// by a cut field, is decoded again with the bytes of the CONTINUATION.
+	blockStart := r.hdrFields == 0
 
 	// a field that the previous frame cut in two is completed by this one
 	b := append(r.hdrPending, fr.Body().(FrameWithHeaders).Headers()...)
